@@ -109,3 +109,91 @@ UNITS.append(Unit(
     id='C18/date.DAYS', target='xlcalculator.xlfunctions.date:DAYS', inputs=[('end', XlDate()), ('start', XlDate())],
     cases=[Case('DAYS = difference of the serials', lambda e, s: True,
                 lambda e, s, out: spec.is_number(out, _serial_of(e) - _serial_of(s), tol=1e-12))]))
+
+
+# ---- EDATE / EOMONTH / DATE on the exact calendar ---------------------------------------------------------------------------------------------
+# The year / month / day of an ordinal are no longer merely "what datetime says": the model ties them to the ordinal by the calendar itself
+# (models_datetime._cal_ax: a valid (y, m, d) whose ordinal it is - which determines them), and dateutil's relativedelta (years / months /
+# days / day) and datetime.replace are modelled exactly on it.  So "move by whole months clipping to the month's end" is decided for EVERY
+# start date and EVERY month offset.
+def _z(x):
+    return x.t if is_sym(x) else z3.IntVal(int(x))
+
+
+def _moved(start_ord, months, to_month_end):
+    """(year, month, day, ordinal) of the date `months` months from the date of `start_ord`, day clipped to the month's end (or AT the month's end)"""
+    o = _z(start_ord)
+    y0, m0, d0 = MD.YEAR_OF(start_ord), MD.MONTH_OF(start_ord), MD.DAY_OF(start_ord)
+    idx = _z(y0) * 12 + _z(m0) - 1 + _z(months)
+    y, m = idx / 12, idx % 12 + 1                       # z3: floor division / non-negative remainder for a positive divisor
+    dim = MD.z_dim(y, m)
+    d = dim if to_month_end else z3.If(_z(d0) > dim, dim, _z(d0))
+    return y, m, d, MD.z_ord(y, m, d)
+
+
+def _serial_z(o):
+    k = o - EPOCH_ORD
+    return k + z3.If(k > 58, 2, 1)
+
+
+def _res_serial(v):
+    """the serial a result stands for: a DateTime (whole day) or a number"""
+    t = T()
+    if isinstance(v, t.DateTime):
+        dv = v.value
+        if isinstance(dv, MD.SymDateTime):
+            return _zn(_serial_z(_z(dv.ord))), dv.sec
+        o = dv.toordinal() - EPOCH_ORD
+        return o + (2 if o > 58 else 1), dv.hour * 3600 + dv.minute * 60 + dv.second
+    if isinstance(v, t.Number):
+        v = v.value
+    return v, 0
+
+
+def _zb(e):
+    """a z3 Bool that is a constant becomes a Python bool (the native replay evaluates the same clause on concrete inputs)"""
+    e = z3.simplify(e)
+    if z3.is_true(e):
+        return True
+    if z3.is_false(e):
+        return False
+    return Sym(e, 'bool')
+
+
+def _zn(e):
+    e = z3.simplify(e)
+    return e.as_long() if z3.is_int_value(e) else Sym(e, 'int')
+
+
+def _moved_ens(to_month_end):
+    def ens(start, months, out):
+        so = start.value.ord if isinstance(start.value, MD.SymDateTime) else start.value.toordinal()
+        y, m, d, o = _moved(so, months.value, to_month_end)
+        in_cal = _zb(z3.And(y >= 1, y <= 9999))
+        # serial 1 IS 1900-01-01: only a result BEFORE that day has no serial (the statement's 1900 system)
+        before = _zb(o < EPOCH_ORD)
+        if out.kind != 'ret':
+            return False
+        if isinstance(out.value, spec.E().ExcelError):
+            return And(in_cal, before, isinstance(out.value, spec.E().NumExcelError))
+        ser, sec = _res_serial(out.value)
+        return And(in_cal, Not(before), spec.num_eq(ser, _zn(_serial_z(o))), spec.eq(sec, 0))
+    return ens
+
+
+def _moved_req(start, months):
+    so = start.value.ord if isinstance(start.value, MD.SymDateTime) else start.value.toordinal()
+    y, m, d, o = _moved(so, months.value, False)
+    # dates from 1900-03-01 on (serials >= 61: below, the serial of a date is shifted by the phantom leap day) and a result inside the calendar
+    return And(so >= EPOCH_ORD + 59, _zb(z3.And(y >= 1, y <= 9999)))
+
+
+for _fn, _end in (('EDATE', False), ('EOMONTH', True)):
+    UNITS.append(Unit(
+        id=f'C18/date.{_fn}/exact_calendar', target=f'xlcalculator.xlfunctions.date:{_fn}',
+        inputs=[('start', XlDate()), ('months', Xl('Number', 'int', domain=[1, -1, 12, 13, -14, 1200]))], requires=_moved_req,
+        cases=[Case(f'{_fn} moves by whole months - year and month carried in either direction - ' +
+                    ('to the LAST day of that month (28 / 29 / 30 / 31 by the Gregorian rule, century years included)' if _end
+                     else 'keeping the day of the month, clipped to the month\'s end') + '; #NUM! exactly when the result lies before 1900-01-01 (serial 1)',
+                    lambda s, m: True, _moved_ens(_end))],
+        canary=Case('canary', lambda s, m: True, (lambda e: lambda s, m, out: _moved_ens(not e)(s, m, out))(_end)), timeout_ms=60000))
